@@ -111,6 +111,16 @@ func (m *Mock) Handle(c kafka.VerifCoordCall) kafka.VerifCoordReply {
 		m.mu.Unlock()
 		return kafka.VerifCoordReply{}
 	}
+	if c.Method == "wirereq" { // byte-level path: the request body the library's Conn wrote, with what it carries
+		m.mu.Lock()
+		d := c.Desc
+		if d == "" {
+			d = "-"
+		}
+		m.Bodies = append(m.Bodies, fmt.Sprintf("wirereq %s %s\t%x", c.Of, strings.ReplaceAll(d, " ", "_"), c.Body))
+		m.mu.Unlock()
+		return kafka.VerifCoordReply{}
+	}
 	if c.Method == "outcome" { // byte-level path: what the library's real Conn call concluded
 		kafka.VerifGroupEmit("M.Wire", c.Conn, c.Of, ClassOfHook(c.Outcome))
 		return kafka.VerifCoordReply{}
